@@ -21,16 +21,18 @@ struct Shared {
 	started: [AtomicUsize; 64],
 }
 
-/// An item that runs longer than this is killed and reported as a hang (typical items take milliseconds to a
+/// An item that runs longer than this (120 s quick, 300 s thorough) is killed and reported as a hang (typical items take milliseconds to a
 /// few seconds).
 pub static LIMIT_OVERRIDE: AtomicUsize = AtomicUsize::new(0);
+/// default limit: 300 s (thorough tier), lowered to 120 s for the quick tier
+pub static LIMIT_DEFAULT: AtomicUsize = AtomicUsize::new(300);
 
 pub fn item_timeout_s() -> usize {
 	let o = LIMIT_OVERRIDE.load(Ordering::SeqCst);
 	if o != 0 {
 		return o
 	}
-	std::env::var("PDBMC_ITEM_TIMEOUT").ok().and_then(|s| s.parse().ok()).unwrap_or(300)
+	std::env::var("PDBMC_ITEM_TIMEOUT").ok().and_then(|s| s.parse().ok()).unwrap_or(LIMIT_DEFAULT.load(Ordering::SeqCst))
 }
 
 fn now() -> usize {
